@@ -10,8 +10,27 @@ import os
 from .. import core, srv
 
 
-def gen_command(rng, T, keys, names):
+def respell(rng, cur):
+    """another spelling of the value that is stored now: a PUT of it is a PUT of a NEW value (the store holds texts, not numbers)"""
+    try:
+        float(cur)
+        numeric = cur.strip() == cur and cur != ""
+    except ValueError:
+        numeric = False
+    if numeric:
+        body = cur.lstrip("+-")
+        sign = cur[:len(cur) - len(body)]
+        return rng.choice([sign + "0" + body, cur + ("0" if "." in cur else ".0"), ("+" + cur) if not sign else cur + "0" if "." in cur else cur + ".00", sign + "00" + body])
+    return rng.choice([cur.upper(), cur.lower(), cur.swapcase(), cur + "_"])        # (no leading / trailing blanks: the server strips the command line)
+
+
+def gen_command(rng, T, keys, names, cur=None):
     r = rng.random()
+    if r < 0.1 and keys and cur is not None:
+        s, f = rng.choice(keys)
+        c = cur(s, f)
+        if c is not None and c not in ("@UNDEFINED", "@RESTRICTED") and c == c.strip() and c != "" and respell(rng, c) != c:
+            return f"@{s}:{f}={respell(rng, c)}"
     if r < 0.55 and keys:
         s, f = rng.choice(keys)
     elif r < 0.75:
@@ -72,7 +91,7 @@ def run(ctx: core.Ctx):
             reals = []
             cmds = []
             for k in range(ncmd):
-                line = gen_command(rng, T, keys, names)
+                line = gen_command(rng, T, keys, names, cur=lambda s_, f_: shadow.get((s_, f_)))
                 out, exc = real.command(line)
                 ctx.case((rec, line))
                 cmds.append(line)
